@@ -58,6 +58,16 @@ CLAIMS["C15"] = dict(
     tech="CBMC code contracts + built-in safety checks on verbatim slices; two-construction determinism harness for uninitialised members; native placement-new replay",
     ref="5/C15")
 
+CLAIMS["C18"] = dict(
+    cat="proof",
+    text="Contracts on the real dialect::SepPair::transform/addSep/generateSeparationConstraint: the complete multiplication table of the symmetry group of the square "
+         "(all doubles, gaps compared bitwise so -0.0 counts); commutation of transform with geometry record by record and the (a,b)/(b,a) negation equivalence of addSep, "
+         "bit-precise over an exact integer-valued domain; generateSeparationConstraint emits the record's meaning for all doubles. TGLF round trip is undecided residue.",
+    note=BASE_TB + "tools/d4.py group table; the record meaning sat1() stated in the contract file; exact-domain restriction is part of the commutation statement; "
+         "operator new substituted by malloc + real constructor (dfcc limitation).",
+    tech="CBMC harness proofs and code contracts on verbatim slices; oracle = group table from 2x2 matrices + record semantics; case split over transform/axis/type",
+    ref="5/C18")
+
 NA = {
     "C02": "Optimality of solve() is a KKT/convergence statement about an iterative active-set method over heap-allocated block trees in IEEE arithmetic; per-function facts need FP multiply/divide reasoning no installed back end finishes (DESIGN 3) and would not imply agreement with a QP oracle.",
     "C03": "'No route segment crosses an obstacle' is emergent from visibility-graph construction (std::list/std::set sweeps), A*, nudging and hyperedge improvement; only the leaf predicates are reachable and they are claimed under C16.",
@@ -72,7 +82,7 @@ NA = {
     "C19": "Decompositions over std::map-of-shared_ptr graphs and a sweep-line planariser; no function within the front end's reach carries the partition property.",
 }
 
-PENDING = {k: 'claim designed in DESIGN.md section 5 but its contract jobs are not built at this commit; not claimed yet' for k in ['C09','C10','C17','C18']}  # id -> reason (claims planned in DESIGN.md whose jobs are not built yet)
+PENDING = {k: 'claim designed in DESIGN.md section 5 but its contract jobs are not built at this commit; not claimed yet' for k in ['C09','C10','C17']}  # id -> reason (claims planned in DESIGN.md whose jobs are not built yet)
 
 
 def main():
